@@ -365,8 +365,15 @@ def _rel_samples():
                 dst = GeoBox.from_bbox((x0, ext.bottom, ext.right + (ext.right - ext.left) * 0.3, ext.top), crs, resolution=res)
                 yield dict(src=base, dst=dst, padding=None, align=None)
                 yield dict(src=dst, dst=base, padding=None, align=None)
+        # rasters only 1-2 pixels thin whose long side curves in the other CRS (a lon/lat strip across a UTM zone at 100 m and back)
+        big = GeoBox((2400, 2400), Affine(100.0, 0.0, 380000.0, 0.0, -100.0, 6120000.0), "EPSG:32633")
+        for thin in ((1, 2000), (2, 1500), (1500, 1)):
+            ny, nx = thin
+            strip = GeoBox(thin, Affine(0.0015 if nx > 1 else 0.002, 0.0, 13.6 if nx > 1 else 15.1, 0.0, -0.0009 if ny > 2 else -0.002, 54.0 if ny <= 2 else 55.0), "EPSG:4326")
+            yield dict(src=big, dst=strip, padding=None, align=None)
+            yield dict(src=strip, dst=big.zoom_out(8), padding=None, align=None)
 
-    return "84 same-CRS pairs (sub-pixel shift, rotation, fractional scale, mirror, touching, disjoint) x padding/align options + 16 cross-CRS pairs (geographic, Mercator, LAEA, UTM neighbour zone); every destination pixel checked by brute force", gen()
+    return "84 same-CRS pairs (sub-pixel shift, rotation, fractional scale, mirror, touching, disjoint) x padding/align options + 16 cross-CRS pairs (geographic, Mercator, LAEA, UTM neighbour zone) + 6 pairs with a raster 1-2 pixels thin and 1500-2000 long across CRSs; every destination pixel checked by brute force", gen()
 
 
 def _c03_native_post(src, dst, padding, align, result):
@@ -413,6 +420,188 @@ contract(
     returns=lambda src, dst: Tup(Tup(Slice(Int(ge=0), Int(ge=0), None), Slice(Int(ge=0), Int(ge=0), None)), Tup(Slice(Int(ge=0), Int(ge=0), None), Slice(Int(ge=0), Int(ge=0), None))),
     verify=False,
     trusted_reason="numpy/float32 sampling of the boundary and envelope of the projected points: outside reach; see compute_reproject_roi@sampled",
+)
+
+
+# ---- the sampled path, data flow: WHICH boundary is sampled HOW densely, and what the samples are turned into ---------------------------
+#
+# What can be decided about the sampled path without numpy / pyproj is its data flow: each raster's perimeter is sampled with the
+# requested number of points PER SIDE on BOTH axes (a thin raster's long side included), the source region is the padded / aligned
+# envelope of the back-projected destination perimeter, the destination region the envelope of the forward-projected perimeter of
+# that source region.  numpy.linspace, polygon_path / edge_index and the envelope (roi_from_points) are bounded / proved elsewhere.
+
+
+def _lemma_roi_boundary_flow(y0, y1, x0, x1, n):
+    m = repo("odc.geo.roi")
+    log = []
+
+    class Lin:
+        def __init__(self, a, b, num, dtype):
+            self.a, self.b, self.num, self.dtype = a, b, num, dtype
+
+    class Path:
+        def __init__(self, x, y, closed, transposed=False):
+            self.x, self.y, self.closed, self.transposed = x, y, closed, transposed
+
+        @property
+        def T(self):
+            return Path(self.x, self.y, self.closed, not self.transposed)
+
+    class GhostNp:
+        ndarray = __import__("numpy").ndarray
+
+        @staticmethod
+        def linspace(start, stop, num=50, endpoint=True, retstep=False, dtype=None, axis=0):
+            log.append(("linspace", start, stop, num, endpoint, retstep))
+            return Lin(start, stop, num, dtype)
+
+    def ghost_path(x, y=None, closed=True):
+        log.append(("polygon_path", x, y, closed))
+        return Path(x, x if y is None else y, closed)
+
+    saved = (m.np, m.polygon_path)
+    try:
+        m.np, m.polygon_path = GhostNp, ghost_path
+        out = m.roi_boundary((slice(y0, y1), slice(x0, x1)), n)
+    finally:
+        m.np, m.polygon_path = saved
+    lins = [e for e in log if e[0] == "linspace"]
+    claim(len(lins) == 2 and all(e[4] is True and e[5] is False for e in lins), "two evenly spaced sample sets, end points included")
+    claim(isinstance(out, Path) and out.transposed and out.closed is False, "the result is the open perimeter path through the sample grid, one point per row")
+    claim(isinstance(out.x, Lin) and And(out.x.a == x0, out.x.b == x1, out.x.num == n), "X samples: exactly pts_per_side points from the first to the last column edge of the region")
+    claim(isinstance(out.y, Lin) and And(out.y.a == y0, out.y.b == y1, out.y.num == n), "Y samples: exactly pts_per_side points from the first to the last row edge -- independently of the region's other side")
+
+
+lemma(
+    "roi.roi_boundary_flow",
+    ["C03", "C12"],
+    inputs=dict(y0=Int(), y1=Int(), x0=Int(), x1=Int(), n=Int(ge=2)),
+    requires=[lambda y0, y1, x0, x1: And(y0 <= y1, x0 <= x1)],
+    body=_lemma_roi_boundary_flow,
+    unstub=["odc.geo.roi:roi_boundary"],
+    note="the real roi_boundary with numpy.linspace and polygon_path recorded: any region (1-pixel thin ones included), any number of samples per side",
+)
+
+
+def _lemma_relative_rois_flow(pts, padding, align, empty):
+    m = repo(OV)
+    log = []
+
+    class Box:
+        def __init__(self, tag, shape):
+            self.tag, self.shape = tag, shape
+
+    class Tr:
+        def __call__(self, pts_):
+            log.append(("tr", pts_))
+            return ("fwd", pts_)
+
+        def back(self, pts_):
+            log.append(("tr.back", pts_))
+            return ("back", pts_)
+
+    src, dst = Box("src", ("sny", "snx")), Box("dst", ("dny", "dnx"))
+    roi_src = "EMPTY-ROI" if empty else "ROI-SRC"
+
+    def g_boundary(g, n=16):
+        log.append(("gbox_boundary", g, n))
+        return ("perimeter", g.tag, n)
+
+    def g_roi_boundary(roi, n=2):
+        log.append(("roi_boundary", roi, n))
+        return ("roi-perimeter", roi, n)
+
+    def g_from_points(xy, shape, padding=0, align=None):
+        log.append(("roi_from_points", xy, shape, padding, align))
+        return roi_src if shape == src.shape else "ROI-DST"
+
+    saved = (m.gbox_boundary, m.roi_boundary, m.roi_from_points, m.roi_is_empty, m.stack_xy, m.unstack_xy)
+    try:
+        m.gbox_boundary, m.roi_boundary, m.roi_from_points = g_boundary, g_roi_boundary, g_from_points
+        m.roi_is_empty = lambda r: r == "EMPTY-ROI"
+        m.stack_xy = lambda p: ("stack", p)
+        m.unstack_xy = lambda p: ("unstack", p)
+        out = m._relative_rois(src, dst, Tr(), pts, padding, align)
+    finally:
+        m.gbox_boundary, m.roi_boundary, m.roi_from_points, m.roi_is_empty, m.stack_xy, m.unstack_xy = saved
+    per = ("unstack", ("perimeter", "dst", pts))
+    claim(("gbox_boundary", dst, pts) in log and ("tr.back", per) in log, "the DESTINATION perimeter, pts_per_side samples per side, is projected back into the source")
+    fp = [e for e in log if e[0] == "roi_from_points"]
+    claim(len(fp) >= 1 and fp[0][1:] == (("stack", ("back", per)), src.shape, padding, align), "source region = envelope of those points within the source image, with the requested padding and alignment")
+    if empty:
+        claim(len(fp) == 1 and out[0] == roi_src and tuple((s.start, s.stop) for s in out[1]) == ((0, 0), (0, 0)), "no overlap: both regions empty")
+        return
+    sper = ("unstack", ("roi-perimeter", roi_src, pts))
+    claim(("roi_boundary", roi_src, pts) in log and ("tr", sper) in log, "the perimeter of THAT source region, sampled as densely, is projected forward")
+    claim(len(fp) == 2 and fp[1][1:] == (("stack", ("fwd", sper)), dst.shape, 0, None), "destination region = envelope of those points within the destination image (padding is not added twice)")
+    claim(out == (roi_src, "ROI-DST"), "(roi_src, roi_dst) returned")
+
+
+lemma(
+    "overlap.relative_rois_flow",
+    ["C03"],
+    inputs=dict(pts=Int(ge=2), padding=Int(ge=0), align=OneOf(None, Int(ge=1)), empty=Bool()),
+    body=_lemma_relative_rois_flow,
+    unstub=[f"{OV}:_relative_rois"],
+    note="data flow of the real _relative_rois over recorded collaborators (boundary sampling, point transform, envelope)",
+)
+
+
+def _edge_samples():
+    def gen():
+        for ny in range(1, 7):
+            for nx in range(1, 7):
+                for closed in (False, True):
+                    yield dict(ny=ny, nx=nx, closed=closed)
+        for ny, nx in ((1, 40), (40, 1), (2, 33), (17, 2)):
+            yield dict(ny=ny, nx=nx, closed=False)
+
+    return "edge_index / polygon_path for every grid of 1..6 x 1..6 sample points (open and closed) + 4 thin long grids; linspace end points and spacing for the same sizes", gen()
+
+
+def _edge_oracle(args, run=None):
+    import numpy as np
+
+    from odc.geo.math import edge_index
+    from odc.geo.roi import polygon_path, roi_boundary
+
+    ny, nx, closed = args["ny"], args["nx"], args["closed"]
+    fails = []
+    idx = list(edge_index((ny, nx), closed=closed))
+    perim = {(j, i) for j in range(ny) for i in range(nx) if j in (0, ny - 1) or i in (0, nx - 1)}
+    body = idx[:-1] if closed and len(idx) > 1 else idx
+    degenerate = ny == 1 or nx == 1  # a single row / column of samples has no ring: cells may be visited twice (never produced by roi_boundary)
+    if set(body) != perim or (len(body) != len(perim) and not degenerate):
+        fails.append("post:edge_index visits every perimeter cell of the grid exactly once")
+    if idx[0] != (0, 0) or (closed and idx[-1] != (0, 0)):
+        fails.append("post:edge_index starts at (0, 0) (and returns there when closed)")
+    if not degenerate and any(abs(a[0] - b[0]) + abs(a[1] - b[1]) != 1 for a, b in zip(body, body[1:])):
+        fails.append("post:consecutive perimeter cells are neighbours (ring order)")
+    x = np.arange(nx) * 2.5 + 1.0
+    y = np.arange(ny) * -3.0 + 7.0
+    pp = polygon_path(x, y, closed=closed)
+    if pp.shape != (2, len(idx)) or not all(pp[0, k] == x[i] and pp[1, k] == y[j] for k, (j, i) in enumerate(idx)):
+        fails.append("post:polygon_path is (x[ix], y[iy]) along edge_index")
+    if not closed and nx >= 2 and ny >= 2:
+        rb = roi_boundary((slice(3, 3 + 5 * (ny - 1)), slice(-2, -2 + 7 * (nx - 1))), max(nx, ny))
+        n = max(nx, ny)
+        want_x = {-2 + 7 * (nx - 1) * k / (n - 1) for k in range(n)}
+        want_y = {3 + 5 * (ny - 1) * k / (n - 1) for k in range(n)}
+        got_x = {float(v) for v in rb[:, 0]}
+        got_y = {float(v) for v in rb[:, 1]}
+        if rb.shape != (4 * (n - 1), 2) or any(min(abs(w - g) for g in got_x) > 1e-4 for w in want_x) or any(min(abs(w - g) for g in got_y) > 1e-4 for w in want_y):
+            fails.append("post:roi_boundary has pts_per_side evenly spaced samples on every side, corners included")
+    return fails
+
+
+contract(
+    "odc.geo.math:edge_index",
+    ["C03", "C12"],
+    ensures=[("perimeter cells of the sample grid, each once, in ring order", lambda result: True)],
+    verify=False,
+    trusted_reason="a generator over four index loops feeding numpy fancy indexing (polygon_path) and numpy.linspace: BOUNDED native check (the index arithmetic does not depend on the sample values)",
+    native_samples=_edge_samples,
+    native_oracle=_edge_oracle,
 )
 
 
